@@ -1746,11 +1746,11 @@ def c06_bridge(ctx):
 
 
 # ======================================================================================= composed closures
-def composed_closure_sites(ctx):
+def composed_closure_sites(ctx, extra=()):
     """(parent body, closure body, [(capture name, type param, origin term)]) for closures that capture user closures"""
     F = ctx.facts
     S = ctx.slots
-    hosts = set(S.transformations) | set(S.inherent_terminals) | set(S.terminals) | set(S.sources)
+    hosts = set(S.transformations) | set(S.inherent_terminals) | set(S.terminals) | set(S.sources) | set(extra)
     outl = []
     for hn in sorted(hosts):
         pb = F.bodies[hn]
@@ -1911,6 +1911,99 @@ def c01_compose(ctx):
     return out
 
 
+@rule('C01-CONJ', 'a composed predicate accepts an element exactly when every predicate it is composed of accepts it')
+def c01_conj(ctx):
+    """C01-COMPOSE decides the order and the gating of the stage calls inside a composed closure.  For a composed *predicate* - a
+    bool-valued closure all of whose captured user closures are predicates (`filter1(x) && filter(x)`, the `filter && predicate` of
+    find) - the value matters as well: it is re-executed with each captured predicate answering a fixed truth value, for every
+    assignment; the result must be true for all-true and false for every assignment that has a false in it and is reachable
+    (`match filter1(x) { false => true, true => filter(x) }` keeps what the earlier filter rejected)."""
+    import itertools
+    out = RuleOut('C01-CONJ')
+    F = ctx.facts
+    n = 0
+    seen = set()
+    # ... also where a private combinator of the crate builds it (`fn both(f1, f2) -> impl Fn(&T) -> bool { move |x| f1(x) && f2(x) }`)
+    S = ctx.slots
+    combinators = [b.name for b in F.fn_bodies() if not b.is_closure() and b.name not in S.tasks and b.name not in S.seq_kernels
+                   and sum(1 for v in b.fn_bounds().values() if v.get('output') == 'bool') >= 2]
+    for (pb, cb, info) in composed_closure_sites(ctx, extra=combinators):
+        if len(info) < 2 or cb.name in seen:
+            continue
+        fb = dict(pb.fn_bounds())
+        fb.update(F.root_of(cb).fn_bounds())
+        if not all(fb.get(tp, {}).get('output') == 'bool' for (cn, tp, org) in info):
+            continue
+        if cb.d.get('ret_ty') not in ('bool', None) and 'bool' not in str(cb.d.get('ret_ty')):
+            continue
+        seen.add(cb.name)
+        names = [cn.lstrip('*&') for (cn, tp, org) in info]
+
+        def pred_name(d):
+            if d is None or d[0] != 'call' or sg(d[1]) not in FN_CALLS or not d[2]:
+                return None
+            f = d[2][0]
+            while f is not None and f[0] in ('ref', 'mut'):
+                f = f[1]
+            if f is None or f[0] != 'param':
+                return None
+            nm = f[1][4:] if f[1].startswith('cap:') else f[1]
+            nm = nm.lstrip('*&')
+            return nm if nm in names else None
+
+        def value(t, asg):
+            """truth of a returned term under the assignment: True / False / None (unknown)"""
+            if t is None:
+                return None
+            if t[0] == 'const':
+                return bool(t[1]) if t[1] in (0, 1, True, False) else None
+            if t[0] == 'un' and t[1] == 'Not':
+                v = value(t[2], asg)
+                return None if v is None else (not v)
+            nm = pred_name(t)
+            if nm is not None:
+                return asg[nm]
+            if t[0] == 'bin' and t[1] in ('BitAnd', 'BitOr'):
+                a, b_ = value(t[2], asg), value(t[3], asg)
+                if a is None or b_ is None:
+                    return None
+                return (a and b_) if t[1] == 'BitAnd' else (a or b_)
+            return None
+        n += 1
+        key = 'C01-CONJ/' + key_of(cb) + ('' if F.root_of(cb).name == pb.name else '@' + key_of(pb))
+        bad = None
+        undecided = None
+        for combo in itertools.product((True, False), repeat=len(names)):
+            asg = dict(zip(names, combo))
+
+            def atoms(d, asg=asg):
+                nm = pred_name(d)
+                return asg[nm] if nm is not None else None
+            rr = ctx.opa.run(cb.name, seeds={'atoms': atoms, 'key': ('C01-CONJ', cb.name, combo)})
+            vals = set()
+            for alt in alternatives(rr.ret) if rr.ret is not None else [None]:
+                vals.add(value(alt, asg))
+            want = all(combo)
+            if None in vals:
+                undecided = (asg, rr.ret)
+                continue
+            if vals != {want}:
+                bad = (asg, vals)
+                break
+        ok = bad is None and undecided is None
+        out.inst(key, ok, 'conjunction of %s' % names, sample={'closure': key_of(cb), 'predicates': names, 'assignments': 2 ** len(names)})
+        if bad is not None:
+            asg, vals = bad
+            out.fail(key, '%s is not the conjunction of its predicates: with %s it answers %s - an element that %s is %s' % (
+                key_of(cb), ', '.join('%s=%s' % (k_, str(v_).lower()) for k_, v_ in asg.items()), sorted(str(v).lower() for v in vals),
+                'every stage accepts' if all(asg.values()) else 'a stage rejects', 'dropped' if all(asg.values()) else 'kept'), cb.where())
+        elif undecided is not None:
+            asg, ret = undecided
+            out.fail(key, '%s: cannot decide the value of the composed predicate with %s (returns %s)' % (key_of(cb), asg, t_str(ret)[:100]), cb.where(), kind='undecided')
+    out.floor('composed_predicates', n, 1 if not ctx.fixture else 0)
+    return out
+
+
 STEP_METHODS = PULL_SIZED | PULL_ELEMENT
 
 
@@ -2016,6 +2109,85 @@ def c05_once(ctx):
             if bad:
                 out.fail(key, '%s: the by-reference closure `%s` can be evaluated twice on the same element (a second call is reachable without an intervening pull)' % (key_of(b), u), b.where(b.blocks[bad[1]]['term'].get('line')))
     out.floor('by_ref_closure_uses', n, 15 if not ctx.fixture else 0)
+    return out
+
+
+STAGE_RECEIVERS = ('std::iter::', 'core::iter::', 'std::option::Option::', 'core::option::Option::', 'std::result::Result::', 'core::result::Result::',
+                   'std::ops::Fn', 'core::ops::Fn', 'std::clone::Clone::clone', 'std::borrow::Borrow::borrow', 'std::convert::',
+                   'std::iter::Extend::extend', 'std::iter::FromIterator::from_iter', 'std::iter::IntoIterator::into_iter')
+
+
+@rule('C05-STAGEUSE', 'inside the kernels a stage closure is called, or handed to an iterator adaptor / Option combinator / crate function - never to a std routine that decides itself how often to call it')
+def c05_stageuse(ctx):
+    """C05-ONCE counts the direct calls of a by-reference stage closure between two pulls, C05-AFFINE shows that a by-value stage
+    cannot be applied twice.  Both are about calls the kernel makes.  A stage closure handed to a library routine is called by
+    that routine: iterator adaptors and Option / Result combinators call it once per item they are given (T1); anything else -
+    `Vec::retain(filter)`, `dedup_by`, `sort_by_key`, `partition_point`, `binary_search_by` .. - revisits elements on its own terms
+    (`collected.retain(filter)` after every chunk shows the filter every earlier survivor again).  Who-may-receive: in the tasks
+    and sequential kernels (and their closures) a stage closure - the parameter itself, a reference to it, or a closure literal
+    capturing it - is an argument only of the receivers listed above or of a crate function."""
+    out = RuleOut('C05-STAGEUSE')
+    F = ctx.facts
+    S = ctx.slots
+    n = 0
+    hosts = []
+    for tn in list(S.tasks) + list(S.seq_kernels):
+        if tn in F.bodies:
+            hosts.append(F.bodies[tn])
+            hosts.extend(F.closures_in(F.bodies[tn], recursive=True))
+    seen = set()
+    for b in hosts:
+        if b.name in seen:
+            continue
+        seen.add(b.name)
+        root = F.root_of(b)
+        fbs = root.fn_bounds()
+        stage = set()
+        for l in root.arg_locals():
+            tp = local_type_param(root, l)
+            if tp in fbs and fbs[tp].get('inputs') != '(usize,)':
+                stage.add(root.local_name(l) or '_%d' % l)
+        if not stage:
+            continue
+        r = ctx.run0(b.name)
+
+        def mentions(a):
+            for x in subterms(a) if a is not None else ():
+                if x[0] == 'param':
+                    nm = x[1][4:] if x[1].startswith('cap:') else x[1]
+                    if nm.lstrip('*&') in stage:
+                        return nm
+            return None
+
+        def carries(a):
+            """the argument IS a stage closure (possibly by reference) or a closure literal capturing one - not a value computed with it"""
+            x = a
+            while x is not None and x[0] in ('ref', 'mut'):
+                x = x[1]
+            if x is None:
+                return None
+            if x[0] == 'param':
+                return mentions(x)
+            if x[0] == 'closure':
+                for cap in x[2]:
+                    got = carries(cap)
+                    if got:
+                        return got
+            return None
+        for bb, c in r.call_sites():
+            t = c['t']
+            d = decl(t)
+            who = [carries(a) for a in c['args']]
+            who = [w for w in who if w]
+            if not who:
+                continue
+            n += 1
+            key = 'C05-STAGEUSE/%s/%s' % (key_of(b), method(t))
+            ok = bool(t.get('local')) or callee_of(t) in F.bodies or d.startswith(STAGE_RECEIVERS) or d.startswith(ITER)
+            out.inst(key, ok, '%s receives %s' % (res(t), who[0]), sample={'body': key_of(b), 'receiver': res(t), 'closure': who[0]})
+            if not ok:
+                out.fail(key, '%s hands the stage closure `%s` to %s: how often, and on which elements, that routine calls it is not the kernel\'s decision any more - a by-reference stage (filter, predicate) can be shown elements it has already seen' % (key_of(b), who[0], res(t)), b.where(c['line']))
+    out.floor('stage_closure_arguments', n, 10 if not ctx.fixture else 0)
     return out
 
 
